@@ -1386,6 +1386,11 @@ impl TensorStore {
         self.router.blobs.replace_with(new_router.blobs.snapshot());
         for key in new_router.scan("") {
             if let Ok(value) = new_router.get(&key) {
+                // The restore writes below the filter: tell it about every restored key,
+                // or get/exists would deny keys this store has not seen before.
+                if let Some(ref filter) = self.bloom_filter {
+                    filter.add(&key);
+                }
                 // Best-effort restore - continue even if individual entries fail
                 if let Err(e) = self.router.put(&key, value) {
                     tracing::warn!(
